@@ -118,6 +118,31 @@ fn gen_dfa(rng: &mut Rng, n: usize, finals: u32) -> (u32, Vec<Op>) {
     (0, ops)
 }
 
+/// few states, many singleton labels (a wide combined alphabet), most of them self-loops or
+/// transitions into one target, one informative letter: a(b|c|d|…)*-like automata
+fn gen_wide(rng: &mut Rng) -> (u32, Vec<Op>) {
+    let n = rng.range(2, 5) as u32;
+    let k = rng.range(6, 22) as u32;
+    let sink = n; // extra sink state
+    let mut ops = Vec::new();
+    for s in 0..n {
+        let home = rng.below(n as u64) as u32;
+        for c in 0..k {
+            let ch = 97 + c;
+            let tgt = if rng.chance(1, 6) { rng.below(n as u64 + 1) as u32 } else { home };
+            if rng.chance(5, 6) {
+                ops.push(Op::T(s, ch, ch, tgt));
+            }
+        }
+        ops.push(Op::D(s, sink));
+        if rng.chance(1, 2) {
+            ops.push(Op::F(s));
+        }
+    }
+    ops.push(Op::D(sink, sink));
+    (0, ops)
+}
+
 /// every state of the DFA duplicated: key k+100 behaves like k (targets chosen among original and copy)
 fn duplicate(rng: &mut Rng, ops: &[Op]) -> Vec<Op> {
     let mut out: Vec<Op> = Vec::new();
@@ -496,8 +521,10 @@ fn gen_fscript(rng: &mut Rng, max: u32, wild: bool) -> Vec<FStep> {
 }
 
 fn run_hopcroft(t: &mut Trace, rng: &mut Rng) {
-    let n = rng.range(1, 20) as usize;
-    let k = rng.range(1, 5) as usize;
+    // one case in five: few states over a wide alphabet (6..25 letters) — many pending splitters
+    let wide = rng.chance(1, 5);
+    let n = if wide { rng.range(2, 7) as usize } else { rng.range(1, 20) as usize };
+    let k = if wide { rng.range(6, 25) as usize } else { rng.range(1, 5) as usize };
     // a small DFA with m states blown up along a random surjection-like map pi
     let m = rng.range(1, n as u64) as usize;
     let pi: Vec<usize> = (0..n).map(|s| if s < m { s } else { rng.below(m as u64) as usize }).collect();
@@ -749,6 +776,23 @@ pub fn run(t: &mut Trace, rng: &mut Rng, thorough: bool) {
     // the same witness for the Minimizer hook
     hopcroft_case(t, 4, 2, &[vec![0, 2], vec![2, 0], vec![0, 0], vec![0, 0]], &[false, false, true, false]);
 
+    // a(b|c|d|e|f|g)* written with one singleton self-loop per letter
+    {
+        let mut ops = vec![Op::T(0, 97, 97, 1), Op::D(0, 2), Op::D(1, 2), Op::D(2, 2), Op::F(1)];
+        for ch in 98..=103u32 {
+            ops.push(Op::T(1, ch, ch, 1));
+        }
+        if let Some(a) = build(0, &ops) {
+            run_minimize(t, a, "corpus", true);
+        }
+    }
+    let n_wide = if thorough { 1500 } else { 300 };
+    for _ in 0..n_wide {
+        let (k0, ops) = gen_wide(rng);
+        if let Some(a) = build(k0, &ops) {
+            run_minimize(t, a, "wide", rng.chance(1, 4));
+        }
+    }
     let n_aut = if thorough { 6000 } else { 1200 };
     for i in 0..n_aut {
         match i % 4 {
